@@ -58,6 +58,20 @@ def replay(case):
             if np.max(np.abs(G.sum(axis=0))) > 1e-10 * scale or np.min(G - np.diag(np.diag(G))) < -1e-10 * scale:
                 out.append(('slim:%s:generator' % shape_sig, 'column sums / off-diagonal signs violated'))
                 break
+        if not out:
+            # second use of the caller's reaction lists: every rate doubled in place after the first build, built again
+            try:
+                for lst in ([scr_h, tcr_h] if cfg['hom'] else scr_l + tcr_l):
+                    for r in lst:
+                        r[-1] = 2 * r[-1]
+                op2 = slim.slim_mme_hom(ss, scr_h, tcr_h, cyclic=cfg['cyclic'], threshold=0) if cfg['hom'] else slim.slim_mme(ss, scr_l, tcr_l, threshold=0)
+                got2 = contract(op2.cores).reshape(-1) if not metadata_problem(op2) else None
+                sc2 = max(1.0, float(np.max(np.abs(want)))) * 2
+                if got2 is None or got2.shape != want.shape or not float(np.max(np.abs(got2 - 2 * want))) <= 1e-10 * sc2:
+                    out.append(('slim:%s:second-use' % shape_sig, 'rates of the caller\'s reaction lists doubled in place between two builds: the second '
+                                'generator is not twice the first (cfg=%r)' % ({k: cfg[k] for k in ('ss', 'cyclic', 'hom')},)))
+            except Exception as e:
+                out.append(('slim:%s:second-use:exception:%s' % (shape_sig, type(e).__name__), repr(e)))
     else:
         grid = list(cfg['grid'])
         tab = np.array(cfg['tab'], dtype=int).T          # rows x_1..x_g, y_1..y_g ; one column per transition
